@@ -8,6 +8,31 @@ def main():
     if BEGIN in d: d = d[:d.index(BEGIN)].rstrip() + "\n"
     out = [BEGIN, "", "## 7. As built (one note per property, written by whoever built the check; `design/Cxx.md`)", ""]
     claimed = {c["property_id"] for c in json.load(open(os.path.join(V, "MANIFEST.json")))["checks"]}
+    # overview table: what is claimed, measured on the last run of each check (evidence/*.json) and on the seeded changes
+    man = json.load(open(os.path.join(V, "MANIFEST.json")))
+    kf = json.load(open(os.path.join(V, "known_findings.json")))
+    out += ["### 7.0 Overview (generated from MANIFEST.json, evidence/*.json, known_findings.json, seeded/*/result.json)", "",
+            "| property | level claimed | theorems proved / stated | correspondence cases (last quick run) | quick wall s | known findings | fixes | seeded changes caught by its own check (any check) / confirmed |",
+            "|---|---|---|---|---|---|---|---|"]
+    for c in man["checks"]:
+        pid = c["property_id"]
+        try: ev = json.load(open(os.path.join(V, "evidence", pid + ".json")))
+        except Exception: ev = {}
+        cov = ev.get("coverage", {})
+        nk = len([k for k in kf.get("known", []) if k.get("property") == pid])
+        nf = len([f for f in kf.get("fixed", []) if ("property=%s " % pid) in f])
+        own = anyc = tot = 0
+        for m in sorted(glob.glob(os.path.join(V, "seeded", pid + "-*", "meta.json"))):
+            meta = json.load(open(m))
+            if meta.get("status"): continue
+            tot += 1
+            rp = os.path.join(os.path.dirname(m), "result.json")
+            res = json.load(open(rp)) if os.path.exists(rp) else {}
+            if res.get(pid, {}).get("caught"): own += 1
+            if any(v.get("caught") for v in res.values()): anyc += 1
+        out.append("| %s | %s | %s / %s | %s | %s | %d | %d | %d (%d) / %d |" % (pid, c["level_claimed"]["category"], cov.get("discharged", "-"), cov.get("obligations", "-"),
+                   cov.get("evaluations", "-"), ev.get("wall_s", "-"), nk, nf, own, anyc, tot))
+    out += ["", "Seeded changes marked obsolete/neutralised (their target code was repaired since) are not counted. \"caught\" = the check exits 1 with a VIOLATION line on the tree with the change applied.", ""]
     for p in sorted(glob.glob(os.path.join(V, "design", "C*.md"))):
         pid = os.path.basename(p)[:-3]
         txt = open(p).read().strip()
